@@ -196,6 +196,14 @@ class Gen:
                     return "(%s.size() * 1)" % v if r.random() < 0.5 else "%s.size()" % v
             if k < 0.9:
                 return "(%s ? %s : %s)" % (self.expr(env, BOOL, depth + 1), self.expr(env, INT, depth + 1), self.expr(env, INT, depth + 1)) if self.f.get("ternary") else self.lit(INT)
+            if self.f.get("temps") and r.random() < self.f["temps"]:
+                # an element of a temporary container: the call that produced the container has returned when the element is used
+                self.note("element-of-temporary")
+                items = [self.expr(env, INT, depth + 1) for _ in range(r.randint(1, 3))]
+                form = r.random()
+                if form < 0.5:
+                    return "[%s][%d]" % (", ".join(items), r.randrange(len(items)))
+                return "[%s].%s()" % (", ".join(items), r.choice(["front", "back"]))
             return self.lit(INT)
         if t == BOOL:
             k = r.random()
@@ -327,6 +335,10 @@ class Gen:
                 v = r.choice(vs)
                 env[n] = (INT, True)
                 return "%s &%s = %s; %s += 1" % (r.choice(["var", "auto"]), n, v, n)
+        if self.f.get("temps") and r.random() < 0.35:
+            # a statement call (result unused) whose argument refers into a temporary made by a nested call
+            self.note("reference-into-temporary-argument")
+            return "print((to_string(%s) + \"abcdefghijklmnopqrstuvwxyz0123456789\")[%d])" % (self.expr(env, INT, depth + 1), r.randint(0, 20))
         if self.f.get("opt") and r.random() < 0.5:
             c = r.random()
             n = self.fresh("k")
@@ -465,6 +477,28 @@ class Gen:
         self.note("def")
         return s
 
+    def loop_families(self):
+        """counting loops whose counter or activation is shared in unusual ways: recursion through the loop body, a counter returned or
+        captured and read after the function ran again"""
+        r = self.r
+        k = self.fresh("q")
+        c = r.random()
+        lo, hi = r.randint(0, 1), r.randint(2, 4)
+        if c < 0.35:
+            self.note("recursion-through-loop")
+            return ["def wk%s(d) { var s = 0; for (var i = %d; i < %d; ++i) { if (d > 0) { s += wk%s(d - 1) }; s = s * 2 + i }; s }" % (k, lo, hi, k)], \
+                   ["print(wk%s(%d))" % (k, r.randint(0, 3)), "print(wk%s(1))" % k]
+        if c < 0.6:
+            self.note("counter-returned")
+            return ["def fg%s(n) { for (var i = 0; i < 10; ++i) { if (i >= n) { return i } }; -1 }" % k], \
+                   ["var ra%s := fg%s(%d)" % (k, k, r.randint(1, 4)), "var rb%s := fg%s(%d)" % (k, k, r.randint(5, 8)), "print(ra%s)" % k, "print(ra%s + rb%s)" % (k, k)]
+        if c < 0.85:
+            self.note("counter-captured")
+            return ["def mk%s() { var f; for (var i = 0; i < %d; ++i) { f = fun[i]() { i } }; f }" % (k, hi)], \
+                   ["var fa%s = mk%s()" % (k, k), "print(fa%s())" % k, "var fb%s = mk%s()" % (k, k), "print(fa%s() + fb%s())" % (k, k)]
+        self.note("nested-counting-loops")
+        return [], ["var t%s = 0; for (var i = 0; i < %d; ++i) { for (var j = 0; j < %d; ++j) { t%s += i * 10 + j; if (j == 1) { continue } }; if (i == %d) { break } }; print(t%s)" % (k, hi, hi, k, hi - 1, k)]
+
     def overload_family(self):
         """one name, overloads that differ in declared parameter types (and an untyped catch-all), defined in random order, called with each kind of value"""
         r = self.r
@@ -491,6 +525,10 @@ class Gen:
             d, c = self.overload_family()
             parts += d
             self.pending_calls = c
+        if self.f.get("loops") and r.random() < self.f["loops"]:
+            d, c = self.loop_families()
+            parts += d
+            self.pending_calls = getattr(self, "pending_calls", []) + c
         env = {}
         for _ in range(r.randint(2, 6)):
             parts.append(self.stmt(env, 0, False, False))
